@@ -12,7 +12,12 @@ from vlib import build
 build.build_harness(quiet=False)
 print("cli:", build.build_cli())
 PY
-# Miri warm-up (sysroot + interpreted driver); a failure here only makes the first C08 run slower
-( cd harness && RUSTFLAGS="--cfg graphql_client_verif --check-cfg cfg(graphql_client_verif)" CARGO_TARGET_DIR=../.build/target-miri \
-  cargo +nightly miri run --offline -q -p gendrv -- nop; RUSTFLAGS="--cfg graphql_client_verif --check-cfg cfg(graphql_client_verif)" CARGO_TARGET_DIR=../.build/target-miri cargo +nightly miri run --offline -q -p envdrv </dev/null >/dev/null 2>&1 || true )
+# Miri warm-up (sysroot + interpreted drivers); a failure here only makes the first C08 / C15 run slower
+(
+  cd harness
+  export RUSTFLAGS="--cfg graphql_client_verif --check-cfg cfg(graphql_client_verif)"
+  export CARGO_TARGET_DIR=../.build/target-miri
+  cargo +nightly miri run --offline -q -p gendrv -- nop >/dev/null 2>&1 || true
+  cargo +nightly miri run --offline -q -p envdrv </dev/null >/dev/null 2>&1 || true
+)
 echo "setup done"
